@@ -118,6 +118,12 @@ static const pcall CALLS[] = {
     {"delta_u", 0, 64, "altbits", 48}, {"rle", 0, 64, "altbits", 40},
     {"group", 0, 1, "randw", 0},      {"group", 0, 2, "rand8", 0},      {"group", 0, 5, "rand32", 0},
     {"group", 0, 7, "randw", 0},      {"group", 0, 63, "randw", 0},     {"group", 0, 64, "rand8", 0},
+    /* the widest values of every codec (64-bit codes, 9-byte varints, 64-bit blocks) */
+    {"edelta", 0, 8, "nine", 0},      {"edelta", 0, 64, "max64", 0},    {"gamma", 0, 8, "nine", 0},
+    {"gamma", 0, 64, "rand64", 0},    {"bp64", 0, 64, "max64", 0},      {"bpd64", 0, 64, "rand64", 0},
+    {"delta_u", 0, 64, "nine", 0},    {"delta_s", 0, 64, "rand64", 0},  {"rle", 0, 64, "nine", 0},
+    {"dict", 0, 64, "rand64", 0},     {"for", 0, 64, "rand64", 0},      {"pfor", 99, 64, "nine", 0},
+    {"group", 0, 9, "nine", 0},       {"adaptive", -1, 64, "nine", 0},
     /* inputs long enough for any "only worth it for large arrays" shortcut */
     {"adaptive", -1, 300, "randw", 0}, {"adaptive", -1, 300, "asc16", 0}, {"adaptive", -1, 300, "cluster", 49},
     {"adaptive", -1, 1000, "fewuniq", 3}, {"for", 0, 300, "rand32", 0}, {"pfor", 95, 1000, "cluster", 49},
